@@ -771,14 +771,27 @@ def execute(history, opts=None):
         fd = hashlib.sha256()
     ctx.fd = fd
     ops = history["ops"]
+    G.set_eps()  # every history starts from the default configuration, whatever an earlier one left behind
     cold = forked_cold(ops) if not (opts and opts.get("no_fork")) else None
     W = World()
+    cfg = (G.get_eps(), G.get_sig_figures())
     snaps = {}
     answers = {}  # op index -> (q, a, b, versions, stored answer)
     asked = []
     qops = {}
-    for step, op in enumerate(ops, 1):
+    prev = None
+    for step, op in enumerate(list(ops) + [{"op": "END"}], 1):
+        # the process-global tolerance is observable state too: no query, construction,
+        # copy or in-place mutation may leave it changed (checked after every step)
+        now = (G.get_eps(), G.get_sig_figures())
+        if now != cfg and prev is not None:
+            what = prev.get("q") or prev.get("ctor") or prev.get("how") or prev["op"]
+            ctx.vio(step - 1, "K1", "%s/global_config" % what, str(what), "tolerance %r -> %r" % (cfg, now), {"op": {k: v for k, v in prev.items() if k in ("op", "q", "a", "b", "ctor", "how", "i")}})
+            G.set_eps()
+        prev = op
         kind = op["op"]
+        if kind == "END":
+            break
         ctx.count("op:" + kind)
         if kind in ("NEW_LEAF", "BUILD", "DEEPCOPY"):
             out = W.apply_structural(op)
